@@ -366,7 +366,7 @@ def _boundary_counts_case(case, tier, seed):
 
 def cases(tier):
     th = tier == 'thorough'
-    mp = 256 if not th else 2048
+    mp = 256 if not th else 768
     out = []
     out.append(Case('g_language', None, custom=_g_language_case))
     out.append(Case('tags_crosshair', None, custom=_crosshair_tags, budget_s=700 if th else 230))
@@ -381,7 +381,7 @@ def cases(tier):
         import random
         from .c01 import random_skeleton
         rng = random.Random(77)
-        descs += [random_skeleton(rng) for _ in range(60)]
+        descs += [random_skeleton(rng) for _ in range(24)]
     for i, d in enumerate(descs):
         out.append(Case('roundtrip_parsed[%02d]' % i, _parsed_case(d), max_paths=mp, timeout_ms=20000, nsamples=1, conc_rel=1e-5))
     for k in ['n*f', 'n*single', 'f+g', 'n*(f+k*g)', 'n*f+k*(g+h)', 'ions_of_D', 'named']:
